@@ -2396,7 +2396,12 @@ impl C09 {
                             let heavy2 = !matches!(doc, Doc::Notification(_));
                             if !heavy2 || ctx.chance(1, if tier == Tier::Thorough { 12 } else { 40 }) {
                                 let content_share = match ctx.choose(3) { 0 => Some((1u64, 2u64)), 1 => Some((1, 4)), _ => None };
-                                let frac = if content_share == Some((1, 2)) { (1, 4) } else { frac.min((1, 2)) };
+                                // shares of the limit: start tag + valid content stay below the whole
+                                let frac = match content_share {
+                                    Some((1, 2)) => (1, 4),
+                                    Some(_) => if frac == (9, 10) { (1, 2) } else { frac },
+                                    None => frac,
+                                };
                                 let in_end_tag = ctx.chance(1, 4);
                                 self.two_stage_case(ctx, &doc, &bytes, which, frac, hk2, content_share, in_end_tag, counters, out)?;
                             }
